@@ -282,24 +282,64 @@ def order_and_names(repo: Repo, R, noret):
         a = f.node.args.args[1].arg
         ok = bool(pat.find(f"[self.export_analysis($A) for $A in {a}.inner]", f.node))
         R.check(ok, rule, key_of(f, "inner"), f.site, f"{meth} exports every inner analysis recursively, in order: {ok}", why="nested analyses are lost")
-    fn = repo.func(F_SIMPROTO, "SimProtoExporter.next_analysis_name")
-    uses = bool(pat.find("name = f'Analysis{self.analysis_count}'", fn.node))
-    incs = [n for n in au.walk_no_nested(fn.node) if isinstance(n, ast.AugAssign) and ast.unparse(n.target) == "self.analysis_count" and isinstance(n.op, ast.Add) and ast.unparse(n.value) == "1"]
-    cond = any(isinstance(n, (ast.If, ast.For, ast.While)) for n in au.walk_no_nested(fn.node))
-    R.check(uses and len(incs) == 1 and not cond, rule, key_of(fn), fn.site, f"next_analysis_name uses the counter ({uses}) and increments it unconditionally on every call ({len(incs) == 1 and not cond})", why="two unnamed analyses receive the same generated name")
+    # the generated names, by role: `Analysis<counter>`, the counter read and then incremented by one — in a helper method
+    # every exporter calls for unnamed analyses, or written out in the exporters themselves
+    ci = repo.cls(F_SIMPROTO, "SimProtoExporter")
+    GEN = "f'Analysis{self.analysis_count}'"
+
+    def _incs(node):
+        return [n for n in au.walk_no_nested(node) if isinstance(n, ast.AugAssign) and ast.unparse(n.target) == "self.analysis_count" and isinstance(n.op, ast.Add) and ast.unparse(n.value) == "1"]
+
+    helpers = {}
+    for mname, m in ci.methods.items():
+        rets = shared.returns_of(m.node)
+        if len(rets) == 1 and rets[0].value is not None and shared.prov_text(m.node, rets[0].value) == GEN and len(m.node.args.args) == 1:
+            helpers[mname] = m
+    for mname, fn in helpers.items():
+        incs = _incs(fn.node)
+        cond = any(isinstance(n, (ast.If, ast.For, ast.While)) for n in au.walk_no_nested(fn.node))
+        R.check(len(incs) == 1 and not cond, rule, key_of(fn), fn.site, f"{mname} names by the counter and increments it unconditionally on every call ({len(incs) == 1 and not cond})", why="two unnamed analyses receive the same generated name")
     init = repo.func(F_SIMPROTO, "SimProtoExporter.__init__")
     R.check(bool(pat.find("self.analysis_count = 0", init.node)), rule, key_of(init), init.site, "the counter starts at 0 per exported Sim", why="names depend on earlier exports")
+    n_named = 0
     for cls, (_f, meth) in ANALYSIS_ARMS.items():
         f = repo.func(F_SIMPROTO, f"SimProtoExporter.{meth}")
         a = f.node.args.args[1].arg
-        defs = au.local_defs(f.node)
-        nm = [k for k, v in defs.items() if ast.unparse(v) == f"{a}.name or self.next_analysis_name()"]
-        kw_ok = False
+        kw_ok = None
+        how = ""
+        alts = []
+        sites = []
         for c in au.calls_in(f.node):
             for k in c.keywords:
                 if k.arg == "analysis_name":
-                    kw_ok = ast.unparse(k.value) in nm or ast.unparse(k.value) == f"{a}.name or self.next_analysis_name()"
-        R.check(kw_ok, rule, key_of(f, "analysis-name"), f.site, f"{meth}: analysis_name is the user's name or a fresh generated one: {kw_ok}", why="a named analysis loses its name, or an unnamed one gets an empty name")
+                    sites.append(c)
+                    alts += [(ast.unparse(v), shared.resolved_conditions(f.node, cds)) for v, cds in shared.alternatives(f.node, k.value, shared.path_conditions(f.node, c), at=c)]
+        if sites:
+            n_named += 1
+            c = sites[0]
+            if True:
+                texts = {t for t, _c in alts}
+                via_helper = {f"{a}.name or self.{h_}()" for h_ in helpers}
+                if texts and texts <= via_helper:
+                    here, how = True, "the user's name, or the counter helper's"
+                else:
+                    # written out: the user's name when there is one, else the generated one, the counter stepped on that path only
+                    def named(cds):
+                        for t_, p_ in cds:
+                            if ast.unparse(t_) == f"{a}.name":
+                                return p_
+                        return None
+                    here = bool(alts) and all((t == f"{a}.name" and named(cds) is True) or (t == GEN and named(cds) is False) for t, cds in alts) and texts == {f"{a}.name", GEN}
+                    incs = _incs(f.node)
+                    here = here and len(incs) == 1 and any(ast.unparse(t_) == f"{a}.name" and p_ is False for t_, p_ in shared.resolved_conditions(f.node, shared.path_conditions(f.node, incs[0])))
+                    # read, then step
+                    gens = [st for st in au.walk_no_nested(f.node) if isinstance(st, (ast.Assign, ast.Return, ast.Expr)) and GEN in ast.unparse(st)]
+                    here = here and bool(gens) and all(shared.precedes(f.node, g_, incs[0]) for g_ in gens) if here else False
+                    how = "written out: the user's name, else Analysis<counter> with the counter stepped once on that path"
+                kw_ok = here if kw_ok is None else (kw_ok and here)
+        R.check(bool(kw_ok), rule, key_of(f, "analysis-name"), f.site, f"{meth}: analysis_name is the user's name or a fresh generated one ({how}): {bool(kw_ok)}", why="a named analysis loses its name, or an unnamed one gets an empty or a repeated name")
+    if n_named < 6:
+        raise AnalysisError(f"anchor-vanished: only {n_named} analysis_name fields found")
 
 
 def testbench(repo: Repo, R, noret):
